@@ -97,10 +97,11 @@ PLAN = {
     },
     "C09": {
         "level": "fault_enumeration",
-        "rule": "38 function types (arity, one parameter type, return type, reference mutability, raw-pointer mutability, unsafety, ABI C/system/Rust, one lifetime-only twin, two pairs of distinct types with the same last path segment, three instantiations of one generic helper that holds the macro call sites); all 1444 ordered (target type, replacement type) pairs, 24 per scenario (61 scenarios enumerate them; every second sweep runs each lifetime inside a destructor while another panic unwinds; further scenarios repeat them through other macro forms: func! two-argument / fn(..) / func_info:, closure!, fake!), plus null target/fake, checked-unchecked mixes, async wrong/right output type; refusal = panic with the right message before any OS event and unchanged entry; distinct = pair blocks",
-        "assumptions": [A_N, "type_name renders structurally different fn-pointer types differently (a rustc property)"],
+        "rule": "38 function types (arity, one parameter type, return type, reference mutability, raw-pointer mutability, unsafety, ABI C/system/Rust, one lifetime-only twin, two pairs of distinct types with the same last path segment, three instantiations of one generic helper that holds the macro call sites); all 1444 ordered (target type, replacement type) pairs, 24 per scenario (61 scenarios enumerate them; every second sweep runs each lifetime inside a destructor while another panic unwinds; further scenarios repeat them through other macro forms: func! two-argument / fn(..) / func_info:, closure!, fake!), plus null target/fake, checked-unchecked mixes, async wrong/right output type; refusal = panic with the right message before any OS event and unchanged entry; under the deterministic scheduler 2-4 threads make their typed pointers (func!, closure!) at the same time, outside any injector, and each then offers a replacement of another type (must be refused) and of the same type (must be accepted); distinct = pair blocks / interleavings",
+        "assumptions": [A_N, "type_name renders structurally different fn-pointer types differently (a rustc property)", A_T],
         "exhaustive": True,
-        "parts": [n_part("N-signature-pairs", "C09", 244, 24400, selftest=61, extra_args=["--family", "sigs"])],
+        "parts": [n_part("N-signature-pairs", "C09", 244, 24400, selftest=61, extra_args=["--family", "sigs"]),
+                  t_part("T-pointers-typed-concurrently", "sigrace", "C09", 3000, 300000)],
     },
     "C14": {
         "level": "fault_enumeration",
